@@ -11,6 +11,17 @@ for m in sorted(pkgutil.iter_modules([os.path.dirname(__file__)]), key=lambda m:
     if not m.name.startswith("_"):
         MODULES.append(importlib.import_module(__name__ + "." + m.name))
 
+# every oracle check function (`check_*`) of every family runs under the watchdog: a library call that never
+# returns becomes that check's finding instead of hanging the whole check
+from ..core import watched as _watched
+for _m in MODULES:
+    for _n, _f in list(vars(_m).items()):
+        if _n.startswith("check_") and callable(_f):
+            setattr(_m, _n, _watched(60)(_f))
+    if hasattr(_m, "ORACLES"):
+        for _k, _f in list(_m.ORACLES.items()):
+            _m.ORACLES[_k] = getattr(_m, _f.__name__, _f) if getattr(_m, getattr(_f, "__name__", ""), None) is not None and getattr(getattr(_m, _f.__name__), "__wrapped__", None) is _f else _watched(60)(_f)
+
 def classgens():
     out = {}
     for m in MODULES:
